@@ -124,6 +124,21 @@ def run(ctx: common.Run):
             for sh, e in ((0.5, 0.3), (-0.25, 1.0), (0.5, 2.0)):
                 pre.append((cirq.ControlledGate(G(dimension=d, global_shift=sh, exponent=e)), None))
                 pre.append((cirq.ControlledGate(G(dimension=d, global_shift=sh, exponent=e), control_qid_shape=(3,), control_values=[2]), None))
+    # control-value patterns: every arrangement of 0 / 1 / don't-care (0,1) controls (the decomposition handles each control by its
+    # position; a don't-care control is dropped, a 0 control is conjugated by X), and qutrit controls with value sets
+    cvs = [0, 1, (0, 1)]
+    pats = [list(pt) for k in (2, 3) for pt in itertools.product(cvs, repeat=k)]
+    subs = [cirq.X**0.5, cirq.Y**0.3, cirq.Z**0.25, cirq.X, cirq.CZ**0.3]
+    cv_cases = []
+    for j, pt in enumerate(pats):
+        for sub in (subs[j % len(subs)], subs[(j + 2) % len(subs)]):
+            g_cv = cirq.ControlledGate(sub, control_values=pt)
+            cv_cases.append((g_cv, list(cirq.LineQubit.range(cirq.num_qubits(g_cv)))))
+    for pt in ([(0, 2), 1], [(1, 2), (0, 1)], [2, (0, 1, 2)], [(0, 1, 2), 0]):
+        cv_cases.append((cirq.ControlledGate(cirq.Y**0.3, control_values=pt, control_qid_shape=(3, 3 if max(np.ravel(pt[1])) > 1 else 2)), None))
+    if ctx.tier == 'quick':
+        cv_cases = cv_cases[ctx.seed % 3::3]
+    pre += cv_cases
     for i in range(n + len(pre)):
         if i < len(pre):
             g, forced = pre[i]
